@@ -14,7 +14,7 @@ import (
 )
 
 func init() {
-	Registry["C13"] = Check{Level: "model_checking", Run: runC13, Replay: replayC13}
+	Registry["C13"] = Check{GC: 25, Level: "model_checking", Run: runC13, Replay: replayC13}
 }
 
 type c13Access struct {
